@@ -38,6 +38,9 @@ def customEasing (n : Nat) (x : α) : α :=
   | 1 => lit 1 - (lit 1 - x) * (lit 1 - x)
   | 2 => x * dec 5 1 + dec 25 2      -- does NOT fix 0 and 1: 0.25 + x/2
   | 4 => lit 1 / (x - dec 5 1)       -- a pole at x = 0.5 (±inf there in binary32; only ever run at Float32)
+  | 11 => x                          -- a parameterised (non-zero-sized) easing of the harness: x, x², x³
+  | 12 => x * x
+  | 13 => x * x * x
   | _ => bezY (dec 1 1) (dec 9 1) x  -- an ad-hoc CubicBezierEasing::new(0.3, 0.1, 0.6, 0.9)
 
 inductive Easing where
